@@ -249,5 +249,64 @@ UNITS += [
 """),
 ]
 
+# ---- BlobCopier (repack in prune, copy): each member blob of a coalesced range is carried over with exactly its bytes
+PKF = "crates/core/src/blob/packer.rs"
+WBC = dict(wrap_open="impl BlobCopier {", wrap_close="}")
+R_MAPERR = Rw("", "", count=None, kind="maperr", why=".map_err(<error building closure>) -> .vmap_err()")
+R_TRYFROM = Rw(r"usize::try_from\((?P<e>[^()]*(?:\([^()]*\))?[^()]*)\)\s*\.expect\(\"convert from u32 to usize should not fail!\"\)", r"((\g<e>) as usize)", regex=True, count=None,
+               why="usize::try_from(u32 expr).expect(..) -> cast (lossless: usize is 64 bit)")
+COPY_COMMON = [
+    Rw("pack_blobs: CopyPackBlobs, p: &Progress", "pack_blobs: CopyPackBlobs, p: &ProgressC", sig=True, why="Progress -> stub"),
+    Rw("FileType::Pack", "FileTypeC::Pack", why="FileType -> stub enum"),
+    Rw("for (blob, blob_id) in pack_blobs.locations.blobs {", "let vpack = pack_blobs.pack_id; for e in it: pack_blobs.locations.blobs.v.iter() { let (blob, blob_id) = (e.0, e.1);", why="SmallVec by-value iteration -> by reference; Verus for-loop syntax"),
+    R_TRYFROM, R_MAPERR,
+    Rw("p.inc(blob.length.into());", "p.inc(blob.length as u64);", why="u32 -> u64"),
+]
+UNITS += [
+    Unit(name="CopyPackBlobs", file=PKF, kind="type", anchor="pub struct CopyPackBlobs {", rewrites=[R_ATTRS]),
+    Unit(name="copy_pack_blobs_coalesce", file=PKF, anchor="pub fn coalesce(self, other: Self) -> Result<Self, (Self, Self)>", within="impl CopyPackBlobs {", ret_name="r",
+         wrap_open="impl CopyPackBlobs {", wrap_close="}",
+         functions=["blob::packer::CopyPackBlobs::coalesce"],
+         rewrites=[Rw("self.pack_id == other.pack_id", "vpackid_eq(&self.pack_id, &other.pack_id)", why="PartialEq on PackId (opaque id)")],
+         contract="""
+    requires
+        self.locations.covers(), other.locations.covers(),
+        self.locations.offset + self.locations.length + constants::MAX_HOLESIZE <= u32::MAX,
+    ensures
+        /*@copy_coalesce_same_pack_only*/ r matches Ok(c) ==> same_pack(self.pack_id, other.pack_id) && c.pack_id == self.pack_id && c.locations.covers()
+            && c.locations.blobs.v@ == self.locations.blobs.v@ + other.locations.blobs.v@ && c.locations.offset == self.locations.offset,
+        /*@copy_coalesce_err_returns_both*/ r matches Err(p) ==> p.0 == self && p.1 == other,
+"""),
+    Unit(name="copy_fast", file=PKF, anchor="pub fn copy_fast(&self, pack_blobs: CopyPackBlobs, p: &Progress) -> RusticResult<()>", within="impl<BE: DecryptFullBackend> BlobCopier<BE> {", ret_name="r", **WBC,
+         functions=["blob::packer::BlobCopier::copy_fast"],
+         rewrites=COPY_COMMON + [
+             Rw("Bytes::copy_from_slice(&data[start..end])", "vcopy_range(&data, start, end)", why="Bytes::copy_from_slice of a sub-slice: bounds become a precondition"),
+             Rw(".add_raw(", ".add_raw(Ghost(vpack), Ghost(blob),", why="ghost arguments of the packer stub: which stored blob this is"),
+         ],
+         contract="""
+    requires pack_blobs.locations.covers(),
+    // (implicit obligation, precondition of the packer stub: every member blob is handed over with exactly its stored
+    //  bytes, under the id the list pairs it with, with its lengths; no slice is out of range)
+""",
+         loops={1: "\n            invariant pack_blobs.locations.covers(), offset == pack_blobs.locations.offset, vpack == pack_blobs.pack_id,\n                offset + pack_blobs.locations.length <= PACK_BYTES(vpack).len(), data.data@ == PACK_BYTES(vpack).subrange(offset as int, offset + pack_blobs.locations.length),\n"},
+         hints=[("loop_start", "1", "            proof { assert(pack_blobs.locations.blobs.v@[it.index@] == *e); }"),
+                ("before", "self.packer\n                .add_raw(", "            proof { assert(data.data@.subrange(start as int, end as int) =~= PACK_BYTES(vpack).subrange(blob.offset as int, blob.offset + blob.length)); }")],
+         ),
+    Unit(name="copy_slow", file=PKF, anchor="pub fn copy(&self, pack_blobs: CopyPackBlobs, p: &Progress) -> RusticResult<()>", within="impl<BE: DecryptFullBackend> BlobCopier<BE> {", ret_name="r", **WBC,
+         functions=["blob::packer::BlobCopier::copy"],
+         rewrites=COPY_COMMON + [
+             Rw(".read_encrypted_from_partial(&read_data[start..end], blob.uncompressed_length)?", ".vread_encrypted_from_range(&read_data, start, end, blob.uncompressed_length)?", why="decrypt (+decompress) of a sub-slice: bounds become a precondition; plaintext uninterpreted"),
+             Rw("self.packer.add(", "self.packer.add(Ghost(vpack), Ghost(blob), ", why="ghost arguments of the packer stub: which stored blob this is"),
+         ],
+         contract="""
+    requires pack_blobs.locations.covers(),
+    // (implicit obligation: every member blob is handed over as the plaintext of exactly its stored bytes, under its id)
+""",
+         loops={1: "\n            invariant pack_blobs.locations.covers(), offset == pack_blobs.locations.offset, vpack == pack_blobs.pack_id,\n                offset + pack_blobs.locations.length <= PACK_BYTES(vpack).len(), read_data.data@ == PACK_BYTES(vpack).subrange(offset as int, offset + pack_blobs.locations.length),\n"},
+         hints=[("loop_start", "1", "            proof { assert(pack_blobs.locations.blobs.v@[it.index@] == *e); }"),
+                ("before", "let data = self\n                .be_src", "            proof { assert(read_data.data@.subrange(start as int, end as int) =~= PACK_BYTES(vpack).subrange(blob.offset as int, blob.offset + blob.length)); }")],
+         ),
+]
+
 KANI = []
 META = {"not_covered": []}
